@@ -2,6 +2,10 @@
 """regenerates MANIFEST.json from the table below (kept valid at all times)"""
 import json
 CLAIMED = {
+ "C03": ("compiled code blocks: register linearity and frame size, scope / jump-control / handler pairing on every compiler path, binding-reference window, labels consumed",
+         "typestate/pairing rules over drop-elaborated MIR (path-sensitive must-pass-through, who-may-write)", "§5 C03"),
+ "C07": ("VM balance: frame push/pop pairing, value-stack truncation on frame removal and in the unwinding protocol, host pushes removed on failure, depth/realm/stack-swap pairs",
+         "pairing / must-pass-through rules over MIR of host entries and the unwinding protocol", "§5 C07"),
  "C08": ("runtime limits: loop counter on every back edge, limit check in every [[Call]]/[[Construct]] slot, handler search gated by catchability",
          "path/dominance rules over MIR (must-pass-through, who-may-write)", "§5 C08"),
 }
@@ -16,7 +20,7 @@ m = {
  "version": 1,
  "setup_cmd": "python3 rules/extract.py default",
  "hooks": {"guard": "boa_verif", "enable": "none: the rustc_private driver reads private items directly; no hook commits exist",
-           "baseline_off_cmd": "cd /repo && cargo test --workspace --no-fail-fast --offline",
+           "baseline_off_cmd": "cd /repo && cargo nextest run --workspace --no-fail-fast --tool-config-file pb:/w/lib/nextest.toml --profile pb --test-threads 8 --offline",
            "source_commits": [], "add_only": True},
  "engines": [
   {"name": "boa-facts", "path": "driver/", "serves_properties": sorted(CLAIMED),
